@@ -126,6 +126,30 @@ def below(rnd, large, vr, lo=0.3, hi=0.999, bg=None):
     return None
 
 
+def saturating(rnd, mn=None):
+    """Pairs whose fix has to go (almost) to the end of the range: the background leaves barely enough room - black or white
+    reaches only [1.0, 1.08] x the minimum - and the text sits just below the minimum near that end (clipping territory)."""
+    for _ in range(400):
+        m = mn or rnd.choice(THRESHOLDS)
+        if rnd.random() < 0.5:
+            v = rnd.randrange(256)
+            b = (v, v, v) if rnd.random() < 0.6 else tuple(min(255, max(0, v + rnd.randrange(-12, 13))) for _ in range(3))
+        else:
+            b = uniform(rnd)
+        end = far_end(b)
+        top = wcag.ratio(end, b)
+        if not (m <= top <= m * 1.08):
+            continue
+        if rnd.random() < 0.6:   # near-grey text close to the end
+            k = rnd.randrange(3, 16)
+            t = tuple(k if end == BLACK else 255 - k for _ in range(3))
+        else:
+            t = steer(lerp(end, uniform(rnd), 0.08), b, m * rnd.uniform(0.93, 0.999), toward=end)
+        if t and wcag.ratio(t, b) < m:
+            return t, b
+    return None
+
+
 def midtone_bg(rnd):
     """Background whose luminance leaves room on both sides."""
     while True:
@@ -142,7 +166,7 @@ def side(text, bg):
 def pair_classes(rnd, n, large=None, vr=None):
     """Yield (class, text, bg) triples, n of them, stratified."""
     classes = ["uniform", "near", "near", "hair", "grey", "named", "equal", "bw_bg",
-               "mid_light", "mid_dark", "below", "below", "websafe"]
+               "mid_light", "mid_dark", "below", "below", "websafe", "saturating"]
     out = []
     i = 0
     while len(out) < n:
@@ -163,6 +187,10 @@ def pair_classes(rnd, n, large=None, vr=None):
             out.append((c, grey(rnd), grey(rnd)))
         elif c == "named":
             out.append((c, named(rnd)[1], named(rnd)[1]))
+        elif c == "saturating":
+            g = saturating(rnd)
+            if g:
+                out.append((c, g[0], g[1]))
         elif c == "websafe":
             # colours people actually type: web-safe lattice, primaries/secondaries, 0/128/255 mixes, near-white and near-black
             lat = [0, 51, 102, 153, 204, 255] if rnd.random() < 0.6 else [0, 128, 255, 1, 254, 127]
